@@ -51,8 +51,9 @@ class P3(P1, P2):           # multiple inheritance
     pass
 
 
-class I4(abc.ABC):          # interface by ABC registration
-    pass
+# interface by ABC registration.  Its class NAME is that of an unrelated protocol above, in another module: offers are
+# registered per protocol, and two protocols are different things however they are called
+I4 = abc.ABCMeta("P0", (abc.ABC,), {"__module__": "props_c17_elsewhere", "__qualname__": "P0"})
 
 
 I4.register(P2)
@@ -213,16 +214,30 @@ def adaptsto_harness(ex):
         class Source(HasTraits):
             pass
 
+        falsy = ex.flag("falsy_adapter")
+
         class Ad(Target):
             adaptee = Any()
             gen = Any()
 
+            def __len__(self):          # an adapter may well be an empty collection view: falsy, yet a perfectly good adapter
+                return 0 if falsy else 1
+
         mgr.register_factory(lambda a: Ad(adaptee=a, gen=state["gen"]) if state["gen"] >= 0 else None, Source, Target)
-        use_supports = ex.flag("supports")
+        # where the adapting trait sits: on its own (C fast path), inside a compound (C validate_trait_complex), inside a
+        # Union / a container (Python validate), or declared by class NAME (resolved on first use: Python validate first)
+        from traits.api import Either, Union, List as _List, Int as _Int
+        shape = ex.choice("position", 10)
+        use_supports = shape != 0
+        if shape >= 2 and ex.sym:
+            # the compound / container positions run natively (their validators call back into Python for the inner trait)
+            return _adaptsto_native(ex, mgr, state, Source, Target, Ad, shape)
 
         class Owner(HasTraits):
             t = Supports(Target) if use_supports else AdaptsTo(Target)
 
+        if shape >= 2:
+            return _adaptsto_native(ex, mgr, state, Source, Target, Ad, shape)
         o = Owner()
         x = Source()
         k = 3
@@ -269,6 +284,50 @@ def adaptsto_harness(ex):
         return {"trace": trace}
     finally:
         set_global_adaptation_manager(old_mgr)
+
+
+def _adaptsto_native(ex, mgr, state, Source, Target, Ad, shape):
+    from traits.api import HasTraits, Supports, Either, Union, List, Dict, Set, Tuple, Str, Int, Instance, TraitError
+    import sys
+    sys.modules[__name__]._FwdTarget = Target        # for the declaration by class name (resolved on first use)
+
+    class Owner(HasTraits):
+        t = {2: lambda: Either(Supports(Target), Int), 3: lambda: Union(Supports(Target), None),
+             4: lambda: List(Supports(Target)), 5: lambda: Instance(Target, adapt="yes"),
+             6: lambda: Supports("_FwdTarget"), 7: lambda: Dict(Str, Supports(Target)), 8: lambda: Set(Supports(Target)),
+             9: lambda: Tuple(Supports(Target), Int)}[shape]()
+
+    wrap = {4: lambda v: [v], 7: lambda v: {"k": v}, 8: lambda v: {v}, 9: lambda v: (v, 1)}.get(shape, lambda v: v)
+    unwrap = {4: lambda c: c[0], 7: lambda c: c["k"], 8: lambda c: next(iter(c)), 9: lambda c: c[0]}.get(shape, lambda c: c)
+    o = Owner()
+    x = Source()
+    trace = []
+    for step in range(3):
+        op = ex.choice("op%d" % step, 4)
+        if op == 0:
+            state["gen"] += 1
+            trace.append("gen")
+            continue
+        if op == 1:
+            state["gen"] = -1 if state["gen"] >= 0 else 1
+            trace.append("toggle")
+            continue
+        val = x if op == 2 else Source()
+        try:
+            o.t = wrap(val)
+            ok = True
+        except TraitError:
+            ok = False
+        trace.append("set:%s" % ok)
+        if state["gen"] < 0:
+            ex.check(not ok, "a value that cannot be adapted is rejected")
+        else:
+            ex.check(ok, "an adaptable value is accepted")
+            if ok:
+                stored = unwrap(o.t)
+                ex.check(isinstance(stored, Ad) and stored.adaptee is val and stored.gen == state["gen"],
+                         "the adapting trait stores the adapter adapt() yields now, wherever it sits (compound, Union, container)")
+    return {"trace": trace, "shape": shape}
 
 
 def obligations(tier, build):
